@@ -9,10 +9,12 @@ EXTENDS Integers, FiniteSets, Sequences, TLC, Json
 \* abstract method list: which of the two relevant methods occur, and whether anything is offered at all
 MethodClass == [has00 : BOOLEAN, has02 : BOOLEAN, others : BOOLEAN, empty : BOOLEAN]
 Methods == {m \in MethodClass : (m.empty => ~m.has00 /\ ~m.has02 /\ ~m.others) /\ (~m.empty => m.has00 \/ m.has02 \/ m.others)}
-Creds == 0..2                       \* number of configured user/password pairs
+Creds == 0..3                       \* number of configured user/password pairs; 3 = one pair whose password is 256 bytes long
+                                    \* (configured, but RFC 1929 cannot carry it: nobody can ever supply it)
 \* what the application supplies in the sub-negotiation
 Supplied == {"match", "match2", "wrongUser", "wrongPass", "emptyBoth", "emptyPass", "long255", "badVersion",
-             "truncVer", "truncUser", "truncPass", "swapped", "caseUser"}
+             "truncVer", "truncUser", "truncPass", "swapped", "caseUser",
+             "crossPair", "crossPair2"}      \* the user name of one configured pair with the password of the other
 Placement == {"clientSide", "serverSide"}
 
 Input == [m : Methods, creds : Creds, sup : Supplied, place : Placement]
@@ -20,8 +22,8 @@ Input == [m : Methods, creds : Creds, sup : Supplied, place : Placement]
 \* PreferNoAuth = TRUE models the code before the fix (no-auth wins whenever it is offered together with user/pass)
 CONSTANT PreferNoAuth
 
-PairOK(i) == \/ i.sup = "match" /\ i.creds >= 1
-             \/ i.sup = "match2" /\ i.creds >= 2
+PairOK(i) == \/ i.sup = "match" /\ i.creds \in {1, 2}
+             \/ i.sup = "match2" /\ i.creds = 2
 
 \* selected method: 0 = no auth, 2 = user/pass, 255 = no acceptable (replied), -1 = connection dropped without reply
 Select(i) ==
